@@ -78,6 +78,53 @@ pub fn with_unrelated_definition(text: &str, k: usize) -> Option<(String, String
     Some((out.join("\n"), format!("{} {:?}", b.btype, b.name)))
 }
 
+/// A name that differs from `name` only in letter case / in repeated blanks (None when the
+/// transformation leaves it unchanged).
+pub fn near_name(name: &str, how: &str) -> Option<String> {
+    let n = match how {
+        "lower" => name.to_lowercase(),
+        "upper" => name.to_uppercase(),
+        "blank2" => name.replacen(' ', "  ", 1),
+        "blank1" => name.replacen("  ", " ", 1),
+        "trail" => format!("{} ", name),
+        _ => return None,
+    };
+    if n == name {
+        None
+    } else {
+        Some(n)
+    }
+}
+
+/// Text with the `k`-th by-name block copied right after itself under a name that differs
+/// only in case / blanks from the original (an unrelated definition that nothing refers to).
+pub fn with_near_name_copy(text: &str, k: usize, how: &str) -> Option<(String, String)> {
+    let lines = diskfault::split_lines(text);
+    let blocks: Vec<_> = diskfault::scan_blocks(&lines)
+        .into_iter()
+        .filter(|b| UNRELATED_TYPES.contains(&b.btype.as_str()) && near_name(&b.name, how).is_some())
+        .collect();
+    if blocks.is_empty() {
+        return None;
+    }
+    let b = &blocks[k % blocks.len()];
+    let nn = near_name(&b.name, how)?;
+    // the new name must not exist already
+    if text.contains(&format!("\"{}\"", nn)) {
+        return None;
+    }
+    let mut out: Vec<String> = lines[..=b.end].iter().map(|s| s.to_string()).collect();
+    out.push(lines[b.start].replacen(&format!("\"{}\"", b.name), &format!("\"{}\"", nn), 1));
+    for l in &lines[b.start + 1..=b.end] {
+        // the NAME attribute some blocks repeat must follow the header
+        out.push(l.replace(&format!("\"{}\"", b.name), &format!("\"{}\"", nn)));
+    }
+    for l in &lines[b.end + 1..] {
+        out.push(l.to_string());
+    }
+    Some((out.join("\n"), format!("{} {:?} -> {:?}", b.btype, b.name, nn)))
+}
+
 /// Text with two adjacent blocks of the same by-name type swapped (the `k`-th such pair).
 pub fn with_swapped_blocks(text: &str, k: usize) -> Option<(String, String)> {
     let lines = diskfault::split_lines(text);
@@ -219,6 +266,7 @@ pub fn exec_op(op: &Value) -> Value {
                         renamed = Some(n);
                         (t, w)
                     }
+                    m if m.starts_with("near:") => with_near_name_copy(&text, kk, &m[5..]).ok_or_else(|| "no eligible block".to_string())?,
                     _ => with_unrelated_definition(&text, kk).ok_or_else(|| "no eligible block".to_string())?,
                 };
                 let m2 = convert_any(k, &edited).map_err(|e| format!("edited project no longer converts: {}", e))?;
